@@ -67,6 +67,10 @@ def specs():
         same='0', checks=[], post=[('@{symbol_type}((void*)r1) == a1', 'a symbol obtained earlier keeps the type it was requested with when a label is requested afterwards'),
                                    ('(void*)@{vcall:unary_name_operand}(&r1->__b0.__b1) == (void*)a0', 'a symbol obtained earlier keeps its name when a label is requested afterwards')],
         claim='a label is never the node of a symbol of another type requested earlier (symbols, labels and `this` share one table)', what='symbol, then label')
+    S['symbol_void_then_label'] = dict(pre='  ident_t* b0 = nondet_bool() ? ID_DEFAULT : ID[pick(NPOOL)]; name_t* a0 = (name_t*)b0; type_t* a1 = (type_t*)@{void_type}(0);      /* the real type void: a label is a symbol of type void */\n',
+        call1='@{G_symbol}(FAC, a0, a1)', call2='@{G_label}(FAC, b0)', same='b0 != ID_DEFAULT', checks=[],
+        post=[('b0 != ID_DEFAULT || (void*)r2 == (void*)&g__ZN3ipr4impl12_GLOBAL__N_111default_cstE', 'the label `default` is the default constant even after a symbol (default, void) was requested')],
+        claim='a label is the symbol (name, void), except `default`, whose label is the constant whatever was requested before', what='symbol of type void, then label')
     S['symbol_then_this'] = dict(pre='  name_t* a0 = NM[pick(NPOOL)]; type_t* a1 = TY[pick(NPOOL)]; type_t* b0 = TY[pick(NPOOL)];\n', call1='@{G_symbol}(FAC, a0, a1)', call2='@{G_this}(FAC, b0)',
         same='0', checks=[], post=[('@{symbol_type}((void*)r1) == a1', 'a symbol obtained earlier keeps its type when `this` is requested afterwards')],
         claim='`this` is never the node of an unrelated symbol requested earlier', what='symbol, then this')
@@ -92,13 +96,13 @@ def specs():
 def build(tier, seed):
     SP = specs()
     names = {'G_' + n: (f[0], f[1]) if f[1] else f[0] for n, f in G.items()}
-    names.update(get_string=NF + 'get_string', empty_string='ipr::String::empty_string', string_characters='ipr::String::characters', symbol_type='ipr::impl::Expr<ipr::Symbol>::type',
+    names.update(void_type='ipr::impl::Lexicon::void_type', get_string=NF + 'get_string', empty_string='ipr::String::empty_string', string_characters='ipr::String::characters', symbol_type='ipr::impl::Expr<ipr::Symbol>::type',
                  word_if_known=AN + 'word_if_known', known_word=AN + 'known_word',
                  unary_string_operand='ipr::Basic_unary<const ipr::String &>::operand', unary_ident_operand='ipr::Basic_unary<const ipr::Identifier &>::operand',
                  unary_type_operand='ipr::Basic_unary<const ipr::Type &>::operand', unary_template_operand='ipr::Basic_unary<const ipr::Template &>::operand',
                  unary_name_operand='ipr::Basic_unary<const ipr::Name &>::operand')
     vroots = [names[k] for k in ('unary_string_operand', 'unary_ident_operand', 'unary_type_operand', 'unary_template_operand', 'unary_name_operand')]
-    u = Unit('names', '/repo/src/impl.cxx', roots=sorted(set(f[0] for f in G.values())) + [NF + 'get_string', 'ipr::String::empty_string', 'ipr::impl::Expr<ipr::Symbol>::type'], vroots=vroots, names=names)
+    u = Unit('names', '/repo/src/impl.cxx', roots=sorted(set(f[0] for f in G.values())) + [NF + 'get_string', 'ipr::String::empty_string', 'ipr::impl::Expr<ipr::Symbol>::type', 'ipr::impl::Lexicon::void_type'], vroots=vroots, names=names)
     def mkgen(rw):
         def gen(unit, rw=rw):
             if rw.startswith('@'):        # a word chosen by its place in the CURRENT table: first, last, longest, shortest entry
